@@ -204,27 +204,32 @@ def applyIncMeta (now : Int) (m : Meta) : Option IncMeta → Meta
       ub := if q.ub ≠ "" then q.ub else m.ub,
       exp := match q.exp with | some e => e | none => m.exp }
 
+/-- current number of a key and whether the "not exist" metadata applies: an absent key and a
+    key without a value start from 0; a value of another type is an error (`none`) -/
+def incStart (ty : NumTy) (old : Option Rec) : Option (Int × Bool) :=
+  match old with
+  | none => some (0, true)
+  | some r =>
+    match r.val with
+    | .none => some (0, true)
+    | v => (numOf ty v).map (fun n => (n, false))
+
+def incCore (ar : Arith) (now : Int) (st : Store) (ty : NumTy) (k : Key) (by_ : Int)
+    (cond : Option (RelOp × Int)) (ine ie : Option IncMeta) : Store × Resp :=
+  let old := AL.find k st
+  match incStart ty old with
+  | none => (st, .err "InvalidArgument")
+  | some (cur, useIne) =>
+    let oldM : Meta := (old.map (·.m)).getD {}
+    if condHolds ar ty cond cur then
+      let r' : Rec := { val := numVal ty (numAdd ar ty cur by_), m := applyIncMeta now oldM (if useIne then ine else ie) }
+      (AL.insert k r' st, .inc r'.val true (metaResp r'.m))
+    else (st, .inc (numVal ty cur) false (metaResp oldM))
+
 def incStep (ar : Arith) (now : Int) (st : Store) (ty : NumTy) (k : Key) (by_ : Int)
     (cond : Option (RelOp × Int)) (ine ie : Option IncMeta) : Store × Resp :=
   if numIsZero ty by_ then (st, .err "InvalidArgument")
-  else
-    let old := AL.find k st
-    -- current number and the metadata request that applies
-    let start : Option (Int × Option IncMeta) :=
-      match old with
-      | none => some (0, ine)
-      | some r =>
-        match r.val with
-        | .none => some (0, ine)
-        | v => (numOf ty v).map (fun n => (n, ie))
-    match start with
-    | none => (st, .err "InvalidArgument")
-    | some (cur, mreq) =>
-      let oldM : Meta := (old.map (·.m)).getD {}
-      if condHolds ar ty cond cur then
-        let r' : Rec := { val := numVal ty (numAdd ar ty cur by_), m := applyIncMeta now oldM mreq }
-        (AL.insert k r' st, .inc r'.val true (metaResp r'.m))
-      else (st, .inc (numVal ty cur) false (metaResp oldM))
+  else incCore ar now st ty k by_ cond ine ie
 
 /-- returns the new store and whether the pair was rejected (type mismatch) -/
 def pushOne (st : Store) (p : Key × List Nat) : Store × Bool :=
@@ -596,52 +601,61 @@ def applyIncMeta (now : Int) (t : MRec) : Option IncMeta → MRec
       changed := t.changed || q.ca || q.cb != "" || q.ua || q.ub != "" || q.exp.isSome,
       expChanged := t.expChanged || q.exp.isSome }
 
+/-- type switch of `IncrementXxx` on `GetContentType`: the treasure to work on (a void one gets
+    the typed zero first), its current number, and whether the "not exist" metadata applies -/
+def incStart (ty : NumTy) (t0 : MRec) : Option (MRec × Int × Bool) :=
+  match t0.c.vis with
+  | .none =>
+    let sr := setScalar t0.c (numZero ty)
+    some ({ t0 with c := sr.c, changed := t0.changed || sr.changed }, 0, true)
+  | v => (numOf ty v).map (fun n => (t0, n, false))
+
+/-- the successful increment: metadata, new number -/
+def incApply (ar : Arith) (now : Int) (ty : NumTy) (by_ : Int) (t1 : MRec) (cur : Int) (mreq : Option IncMeta) : MRec :=
+  let t2 := applyIncMeta now t1 mreq
+  let sr := setScalar t2.c (numVal ty (numAdd ar ty cur by_))
+  { t2 with c := sr.c, changed := t2.changed || sr.changed }
+
+/-- a treasure that was handed out by `CreateTreasure` stays where it is: in the key beacon
+    (mutated in place) or parked in `creatingTreasures` -/
+def park (existed : Bool) (i : Inst) (k : Key) (t : MRec) : Inst :=
+  if existed then { i with recs := AL.insert k t i.recs } else { i with inflight := AL.insert k t i.inflight }
+
+/-- result of `IncrementXxx` on a live instance: the instance to keep (`settle` = the request
+    may have stored nothing), the reply, tags -/
+structure IncOut where
+  i : Inst
+  r : Resp
+  tags : List Tag
+
 /-- `IncrementXxx` (swamp.go) -/
+def incCore (cfg : Cfg) (ar : Arith) (now : Int) (i : Inst) (ty : NumTy) (k : Key) (by_ : Int)
+    (cond : Option (RelOp × Int)) (ine ie : Option IncMeta) : IncOut :=
+  let existed := AL.has k i.recs
+  let t0 := (createTreasure i k).1
+  let tg0 := (createTreasure i k).2
+  match incStart ty t0 with
+  | none => ⟨park existed i k t0, .err "InvalidArgument", tg0⟩
+  | some (t1, cur, useIne) =>
+    let mreq := if useIne then ine else ie
+    if condHolds ar ty cond cur then
+      let t3 := incApply ar now ty by_ t1 cur mreq
+      ⟨(save cfg i k t3 true).1, .inc t3.c.vis true (metaResp t3.m), tg0 ++ (save cfg i k t3 true).2.2⟩
+    else if cfg.incFailClean then
+      ⟨if existed then i else { i with inflight := AL.erase k i.inflight },
+       .inc (numVal ty cur) false (metaResp t0.m), tg0⟩
+    else
+      let t2 := applyIncMeta now t1 mreq
+      ⟨park existed i k t2, .inc (numVal ty cur) false (metaResp t2.m),
+       tg0 ++ (if decide (t2 ≠ t0) || !existed then [Tag.incFailTrace] else [])⟩
+
 def incStep (cfg : Cfg) (ar : Arith) (now : Int) (s : State) (ty : NumTy) (k : Key) (by_ : Int)
     (cond : Option (RelOp × Int)) (ine ie : Option IncMeta) : Out :=
   if numIsZero ty by_ then ⟨s, .err "InvalidArgument", []⟩
   else
-    let i := summon s
-    let existed := AL.has k i.recs
-    let (t0, tg0) := createTreasure i k
-    -- a new treasure is parked in creatingTreasures at once
-    let park (i : Inst) (t : MRec) : Inst :=
-      if existed then { i with recs := AL.insert k t i.recs } else { i with inflight := AL.insert k t i.inflight }
-    -- type switch on GetContentType
-    let start : Option (MRec × Int × Option IncMeta) :=
-      match t0.c.vis with
-      | .none =>
-        let sr := setScalar t0.c (numZero ty)
-        some ({ t0 with c := sr.c, changed := t0.changed || sr.changed }, 0, ine)
-      | v => (numOf ty v).map (fun n => (t0, n, ie))
-    match start with
-    | none =>
-      let (s', tg) := settleAfterTouch cfg s (park i t0)
-      ⟨s', .err "InvalidArgument", tg0 ++ tg⟩
-    | some (t1, cur, mreq) =>
-      let ok := condHolds ar ty cond cur
-      if cfg.incFailClean then
-        if ok then
-          let t2 := applyIncMeta now t1 mreq
-          let sr := setScalar t2.c (numVal ty (numAdd ar ty cur by_))
-          let t3 : MRec := { t2 with c := sr.c, changed := t2.changed || sr.changed }
-          let (i1, _, tg1) := save cfg i k t3 true
-          ⟨withLive s i1, .inc t3.c.vis true (metaResp t3.m), tg0 ++ tg1⟩
-        else
-          let i1 : Inst := if existed then i else { i with inflight := AL.erase k i.inflight }
-          let (s', tg) := settleAfterTouch cfg s i1
-          ⟨s', .inc (numVal ty cur) false (metaResp t0.m), tg0 ++ tg⟩
-      else
-        let t2 := applyIncMeta now t1 mreq
-        if ok then
-          let sr := setScalar t2.c (numVal ty (numAdd ar ty cur by_))
-          let t3 : MRec := { t2 with c := sr.c, changed := t2.changed || sr.changed }
-          let (i1, _, tg1) := save cfg i k t3 true
-          ⟨withLive s i1, .inc t3.c.vis true (metaResp t3.m), tg0 ++ tg1⟩
-        else
-          let trace := decide (t2 ≠ t0) || !existed
-          let (s', tg) := settleAfterTouch cfg s (park i t2)
-          ⟨s', .inc (numVal ty cur) false (metaResp t2.m), tg0 ++ (if trace then [Tag.incFailTrace] else []) ++ tg⟩
+    let o := incCore cfg ar now (summon s) ty k by_ cond ine ie
+    let st := settleAfterTouch cfg s o.i
+    ⟨st.1, o.r, o.tags ++ st.2⟩
 
 /-- one pair of `Uint32SlicePush`; Bool = an error was collected -/
 def pushOne (cfg : Cfg) (i : Inst) (p : Key × List Nat) : Inst × Bool × List Tag :=
